@@ -274,8 +274,12 @@ func (p *proxyConn) handleUpgradeResponse(res *http.Response) error {
 
 	uconn, ok := res.Body.(io.ReadWriteCloser)
 	if !ok {
-		log.Error(res.Request.Context(), "internal error: switching protocols response with non-writable body")
-		p.traceWroteResponse(res, errors.New("switching protocols response with non-writable body"))
+		// A 101 that switches to no protocol (no Upgrade field) comes with an ordinary body:
+		// nothing was sent to the client yet, answer it like any other malformed upstream reply.
+		log.Error(res.Request.Context(), "switching protocols response with non-writable body")
+		if err := p.writeErrorResponse(res.Request, errors.New("switching protocols response with non-writable body")); err != nil {
+			return err
+		}
 		return errClose
 	}
 	res.Body = panicBody
